@@ -212,9 +212,11 @@ const (
 	modFreeze key.Modifier = "verif-freeze"
 	modP2     key.Modifier = "verif-p2"
 	modBext   key.Modifier = "verif-bext"
+	modDis    key.Modifier = "verif-disable"
+	modCtr    key.Modifier = "verif-counter"
 )
 
-var simMods = []key.Modifier{modRevive, modDot, modFreeze, modP2, modBext}
+var simMods = []key.Modifier{modRevive, modDot, modFreeze, modP2, modBext, modDis, modCtr}
 
 type scriptedChar struct {
 	eng engine.Engine
@@ -278,6 +280,8 @@ func (c *scriptedMultiChar) UltAttack(t key.TargetID, _ info.ActionState) {
 func (c *scriptedMultiChar) UltSkill(t key.TargetID, _ info.ActionState) {
 	curSim.runProg(curSim.ult[c.id], c.id, t)
 }
+
+var counterDepth int
 
 func skillCheckOf(k int) func(engine.Engine, info.CharInstance) bool {
 	switch k {
@@ -353,6 +357,25 @@ func registerScripted() {
 	})
 	modifier.Register(modFreeze, modifier.Config{
 		BehaviorFlags: []model.BehaviorFlag{model.BehaviorFlag_STAT_CTRL, model.BehaviorFlag_DISABLE_ACTION},
+	})
+	// strikes back from inside the announcement of an attack (an Attack call made by an AttackStart listener)
+	modifier.Register(modCtr, modifier.Config{
+		Listeners: modifier.Listeners{
+			OnBeforeBeingAttacked: func(mod *modifier.Instance, e event.AttackStart) {
+				// an announcement made from inside this strike would announce again, without end: a (recoverable)
+				// panic instead of a stack overflow, so that the case is reported
+				counterDepth++
+				defer func() { counterDepth-- }()
+				if counterDepth > 64 {
+					panic("verif: the strike made from an attack announcement was announced as an attack of its own (64 levels deep)")
+				}
+				mod.Engine().Attack(info.Attack{Key: "verif-counter", Source: mod.Owner(), Targets: []key.TargetID{e.Attacker},
+					AttackType: model.AttackType_NORMAL, DamageType: model.DamageType_PHYSICAL, DamageValue: 50})
+			},
+		},
+	})
+	modifier.Register(modDis, modifier.Config{
+		BehaviorFlags: []model.BehaviorFlag{model.BehaviorFlag_DISABLE_ACTION},
 	})
 	modifier.Register(modBext, modifier.Config{
 		BehaviorFlags: []model.BehaviorFlag{model.BehaviorFlag_BREAK_EXTEND},
@@ -619,6 +642,7 @@ func (simComp) Exec(c *wire.Case, w *wire.Writer) {
 		}
 		s.nchars = len(kinds)
 		curSim = s
+		counterDepth = 0
 		var res *model.IterationResult
 		var err error
 		crashed := ""
